@@ -60,4 +60,13 @@ C16_PersistIdentity == [][last'.op = "saveload" => dhcp' = dhcp]_vars
 \* a full parent refuses (no lease, table untouched) rather than handing out a duplicate
 C16_RefuseWhenFull == [][last'.op = "req" /\ last'.addr = NoAddr => dhcp' = dhcp]_vars
 Depth == TLCGet("level") <= MaxDepth
+
+\* ---- unbounded depth: Injective (for the table and for the saved file) is an INDUCTIVE invariant.  TLC starts from every
+\* injective table over the addresses the Vias can yield (times every saved file) and checks one step of Next from each: the
+\* invariant and all action clauses then hold on every transition of every reachable state, whatever the history length.
+Universe == {NoAddr} \cup ({ChildSlot(via, i) : via \in Vias, i \in 1..5} \ {DefaultAddr})
+IndInv == /\ dhcp \in [Ids -> Universe] /\ Injective(dhcp)
+          /\ saved \in {NoFile} \cup [fmt : {"json", "bin"}, tab : {t \in [Ids -> Universe] : Injective(t)}]
+IndInit == IndInv /\ last = [op |-> "init"]
+IndView == <<dhcp, saved>>
 =============================================================================
